@@ -1144,6 +1144,10 @@ class Function(Ring):
     def __pow__(self, r):
         return Function.pushforward(operator.pow, [self, r])
 
+    def pow(self, r):
+        # algopy.pow(x, r) on a traced operand: recorded like x**r
+        return self ** r
+
     def __rpow__(self, r):
         raise NotImplementedError('please use the identity x**y = exp(log(x)*y)')
 
